@@ -19,6 +19,8 @@ from common import Ctx, jrat
 
 ALPHABET = [Fraction(1), Fraction(2), Fraction(3), Fraction(4)]
 REPS = ["pyfloat", "npfloat32", "npfloat64", "jax"]
+# 3/2 exceeds the alphabet's smallest step, so some decreases do NOT count as improvements
+DELTAS = (Fraction(0), Fraction(1, 2), Fraction(3, 2))
 
 
 def conv(rep, x):
@@ -101,7 +103,7 @@ def enumerate_histories(ctx: Ctx, ml, max_len):
         for hist in itertools.product(ALPHABET, repeat=n):
             hist = list(hist)
             for patience in range(4):
-                for delta in (Fraction(0), Fraction(1, 2)):
+                for delta in DELTAS:
                     for cls_name, mon in (("TrainLoss", "train"), ("ValLoss", "val")):
                         calls = [{"train": None, "val": None}]
                         for x in hist:
@@ -226,6 +228,7 @@ def training_runs(ctx: Ctx, n_runs):
         ("TrainLoss", 1, Fraction(0), [5, 4, 3, 3, 4, 3, 2, 9, 9, 9], False),
         ("ValLoss", 0, Fraction(0), [9, 5, 4, 6, 1, 1, 1, 1], True),
         ("TrainLoss", 0, Fraction(1, 2), [8, 6, 5.75, 5.5, 2, 2, 2], False),
+        ("TrainLoss", 1, Fraction(1, 4), [0.875, 0.625, 0.5, 0.5, 0.5, 0.5], False),
         ("ValLoss", 2, Fraction(0), [9, 3, 4, 5, 2, 6, 7, 8, 1, 1], True),
         ("EpochStop", 3, Fraction(0), [9, 8, 7, 6, 5, 4], False),
         ("TrainLoss", 2, Fraction(0), [3, 3, 3, 3, 3, 3, 3], True),
@@ -265,7 +268,7 @@ def run(ctx: Ctx):
 
     ctx.rule = (
         "all loss histories over the ordered alphabet {1,2,3,4} up to length L (quick 5, thorough 7) x "
-        "patience 0..3 x min_delta {0,1/2} x {TrainLoss,ValLoss} x scalar representation "
+        "patience 0..3 x min_delta {0,1/2,3/2} (3/2 makes unit decreases non-improvements) x {TrainLoss,ValLoss} x scalar representation "
         "{python float, numpy.float32, numpy.float64, 0-d jax array} (all four up to length L-1, two on "
         "length L), driven call by call through the real classes after one loss-less call; EpochStop for "
         "epochs 0..5; plus real ml.train runs with a scripted loss history under a runaway guard. "
